@@ -18,9 +18,9 @@ import (
 
 func init() {
 	ev.Register(&ev.Check{
-		ID:    "C16",
-		Level: "exploration",
-		Rule: "every Check-accepted case of the merged C01/C03/C04/C09 generators and hostile keys, plus an AST-specific family (every rule name with notes, nested or/enum/allOf items, decimal/precision, value and key shortcuts with manual rules, rule lists in 2 orders): the tree returned by GetAST must equal the expected tree computed from the generator's abstract schema: one node per example value in source order with Key, IsKeyShortcut, TokenType, Value, SchemaType, rules with names/values/order/nested items, manual/generated source marks and the note; inherited allOf properties must not appear. Non-trivial = distinct accepted schema with >= 1 rule or child.",
+		ID:          "C16",
+		Level:       "exploration",
+		Rule:        "every Check-accepted case of the merged C01/C03/C04/C09 generators and hostile keys, plus an AST-specific family (every rule name with notes, nested or/enum/allOf items, decimal/precision, value and key shortcuts with manual rules, rule lists in 2 orders): the tree returned by GetAST must equal the expected tree computed from the generator's abstract schema: one node per example value in source order with Key, IsKeyShortcut, TokenType, Value, SchemaType, rules with names/values/order/nested items, manual/generated source marks and the note; inherited allOf properties must not appear. Non-trivial = distinct accepted schema with >= 1 rule or child.",
 		Run:         run,
 		Replay:      replay,
 		QuickBudget: 80 * time.Second,
